@@ -124,7 +124,8 @@ def base_shapes():
     layouts = {1: [[]], 2: [[], ["k2"]], 3: [[], ["k2"], ["k2", "k3"], ["k3"]], 4: [["k2", "k3"], ["k3"], ["k2", "k4"]]}
     opsets = {
         1: [[("set", "k1")], [("del", "k1")], [("insert", "k1")]],
-        2: [[("set", "k1"), ("set", "k2")], [("del", "k1"), ("set", "k2")], [("lockonly", "k1"), ("set", "k2")], [("set", "k1"), ("insert", "k2")]],
+        2: [[("set", "k1"), ("set", "k2")], [("del", "k1"), ("set", "k2")], [("lockonly", "k1"), ("set", "k2")], [("set", "k1"), ("insert", "k2")],
+            [("insdel", "k1"), ("set", "k2")]],   # the smallest key is an insert-then-delete: never locked, must not become the primary
         3: [[("set", "k1"), ("set", "k2"), ("del", "k3")], [("insert", "k1"), ("lockonly", "k2"), ("set", "k3")], [("set", "k1"), ("insdel", "k2"), ("set", "k3")]],
         4: [[("set", "k1"), ("del", "k2"), ("insert", "k3"), ("lockonly", "k4")], [("set", "k4"), ("set", "k3"), ("set", "k2"), ("set", "k1")]],
     }
